@@ -19,6 +19,9 @@ CLAIMED = {
  "C13": ("dominance of a mode check over every file-system mutation on a statement CFG with self-calls inlined; identifier taint (def-use) against exact/anchored matching idioms; SQL sibling column agreement",
          "Static: every file-system mutation reachable from a public DataStoreDirectory method is dominated by a READONLY check (the SQLite store by its typed read-only handle); identifiers are only matched exactly or by anchored forms; a completed write retires the not-completed record of the same identifier on every path; the UPDATE and INSERT branches persist the same columns; _check_writable refuses READONLY writes and APPEND overwrites. Equality with a dictionary model over arbitrary histories is not decided.",
          "Trusts python ast, CFG/dominators, the resolver for self./super() calls (depth 3), sqlite mode=ro."),
+ "C14": ("def-use of the result/source association, structural one-submit/one-yield rule, dominance and try-containment on a statement CFG, sibling writer routing",
+         "Static: schedules are decided structurally by showing the result<->source association never depends on order (the proxy object itself is returned and the identifier is derived from the completed value; no positional pairing), one submission per input and one yield per future, a cardinality-preserving input pipeline, failures converted to records on every path of _call, and every writer routing NotCompleted by kind under the same identifier. Content equality with a solo call and behaviour of the executors are not decided.",
+         "Trusts python ast, CFG/dominators, concurrent.futures semantics (each future yielded once)."),
 }
 
 NOT_APPLICABLE = {
